@@ -21,7 +21,7 @@ def gen_combos():
 
 
 def norm_reads(log):
-    return [{"lo": r["lo"], "hi": r["hi"]} for r in log]
+    return [{"lo": r["lo"], "hi": r["hi"], "window": r["window"]} for r in log]
 
 
 def covered(log):
@@ -39,10 +39,20 @@ def run_unpack(mod, root, raw, start, with_events=True):
     tb = observe.TracedBytes(bytes(raw), rlog)
     out = {"reads": rlog, "evs": ulog}
     classes = observe.all_packet_classes(mod) if with_events else []
+    endc = [-1]
+    orig_impl = cls.__dict__.get("unpack_impl", None)
+    base_impl = cls.unpack_impl
+
+    def impl(self, raw, offset, **k):
+        r = base_impl(self, raw, offset, **k)
+        if k.get("root") is self:
+            endc[0] = r
+        return r
+    cls.unpack_impl = impl
     try:
         with observe.field_events(classes, ulog, plog):
             pkt = cls.unpack(tb, start)
-        out.update(st="done", pkt=pkt, result=observe.abs_packet(pkt))
+        out.update(st="done", pkt=pkt, result=observe.abs_packet(pkt), endc=endc[0])
     except observe.PacketError as e:
         out.update(st="fail", err=observe.abs_error(e), exc=e)
         try:
@@ -51,6 +61,14 @@ def run_unpack(mod, root, raw, start, with_events=True):
             out["str_error"] = "%s: %s" % (type(e2).__name__, e2)
     except Exception as e:
         out.update(st="escape", exc_type=type(e).__name__, exc_msg=str(e)[:200])
+    finally:
+        if orig_impl is None:
+            try:
+                del cls.unpack_impl
+            except AttributeError:
+                pass
+        else:
+            cls.unpack_impl = orig_impl
     return out
 
 
@@ -88,51 +106,57 @@ def compare_case(mod, d, case, gen, opts):
     if "str_error" in ro:
         mm.append(("C12.str_total", "str(PacketError) failed: " + ro["str_error"]))
     if ro["st"] != u["st"]:
-        mm.append(("unpack.outcome", "code %s, specification %s%s" % (
+        mm.append(("conf_outcome", "code %s, specification %s%s" % (
             ro["st"], u["st"], (" err=%r" % (ro.get("err"),)) if ro["st"] == "fail" else "")))
         return mm, ro, None
     if u["st"] == "done":
+        if opts.get("cursor", True) and ro["endc"] != u["cur"]:
+            mm.append(("conf_end", "code %r, specification %r" % (ro["endc"], u["cur"])))
         if opts.get("values", True) and ro["result"] != u["result"]:
-            mm.append(("unpack.values", "code %s, specification %s" % (json.dumps(ro["result"]), json.dumps(u["result"]))))
+            mm.append(("conf_values", "code %s, specification %s" % (json.dumps(ro["result"]), json.dumps(u["result"]))))
         if opts.get("events", True) and generic:
             ev = [{"cls": e["cls"], "name": e["name"], "b": e["b"], "e": e["e"]} for e in ro["evs"]]
             if ev != u["evs"]:
-                mm.append(("unpack.field_events", "code %r, specification %r" % (ev, u["evs"])))
+                mm.append(("conf_evs", "code %r, specification %r" % (ev, u["evs"])))
     else:
         if opts.get("err", True):
             if not ro["err"]["unpacking"]:
                 mm.append(("C12.phase", "unpack failure flagged as packing"))
             if generic and ro["err"]["stack"] != u["err"]:
-                mm.append(("C12.stack", "code %r, specification %r" % (ro["err"]["stack"], u["err"])))
+                mm.append(("conf_err", "code %r, specification %r" % (ro["err"]["stack"], u["err"])))
             elif not generic and len(ro["err"]["stack"]) != len(u["err"]):
-                mm.append(("C12.stack_depth", "code %r, specification %r" % (ro["err"]["stack"], u["err"])))
+                mm.append(("conf_err_depth", "code %r, specification %r" % (ro["err"]["stack"], u["err"])))
     if opts.get("reads", True):
         if generic:
             if norm_reads(ro["reads"]) != norm_reads(u["reads"]):
-                mm.append(("unpack.read_log", "code %r, specification %r" % (norm_reads(ro["reads"]), norm_reads(u["reads"]))))
+                mm.append(("conf_reads", "code %r, specification %r" % (norm_reads(ro["reads"]), norm_reads(u["reads"]))))
         elif u["st"] == "done" and covered(ro["reads"]) != covered(u["reads"]):
-            mm.append(("unpack.read_set", "code %r, specification %r" % (sorted(covered(ro["reads"])), sorted(covered(u["reads"])))))
+            mm.append(("conf_read_set", "code %r, specification %r" % (sorted(covered(ro["reads"])), sorted(covered(u["reads"])))))
     po = None
     if u["st"] == "done" and opts.get("pack", True) and case["p"]["st"] != "none":
         p = case["p"]
         po = run_pack(mod, ro["pkt"])
         if po["st"] == "escape":
             mm.append(("C12.pack_raises_only_PacketError", "pack raised %s: %s" % (po["exc_type"], po["exc_msg"])))
+        elif p.get("dev") and po["st"] == "fail":
+            mm.append(("dev_F5", "pack refused an insert that touches no occupied byte: %r" % (po["writes"][-1:],)))
         elif po["st"] != p["st"]:
-            mm.append(("pack.outcome", "code %s, specification %s%s" % (po["st"], p["st"],
+            mm.append(("conf_pack_outcome", "code %s, specification %s%s" % (po["st"], p["st"],
                        (" err=%r" % (po.get("err"),)) if po["st"] == "fail" else "")))
         elif p["st"] == "done":
             if po["out"] != p["out"]:
-                mm.append(("pack.bytes", "code %r, specification %r" % (bytes(po["out"]), bytes(p["out"]))))
+                mm.append(("conf_out", "code %r, specification %r" % (bytes(po["out"]), bytes(p["out"]))))
+            if opts.get("events", True) and generic_p and po["evs"] != p["evs"]:
+                mm.append(("conf_pevs", "code %r, specification %r" % (po["evs"], p["evs"])))
             if opts.get("writes", True) and generic_p and po["writes"] != p["writes"]:
-                mm.append(("pack.write_log", "code %r, specification %r" % (po["writes"], p["writes"])))
+                mm.append(("conf_writes", "code %r, specification %r" % (po["writes"], p["writes"])))
         else:
             if "str_error" in po:
                 mm.append(("C12.str_total", "str(PacketError) failed: " + po["str_error"]))
             if po["err"]["unpacking"]:
                 mm.append(("C12.phase", "pack failure flagged as unpacking"))
             if generic_p and opts.get("err", True) and po["err"]["stack"] != p["err"]:
-                mm.append(("C12.stack", "pack: code %r, specification %r" % (po["err"]["stack"], p["err"])))
+                mm.append(("conf_perr", "pack: code %r, specification %r" % (po["err"]["stack"], p["err"])))
     return mm, ro, po
 
 
